@@ -192,6 +192,47 @@ theorem z_lookup : ∀ (names : List Name) (a : Name), a ∈ names →
     · simp [hak]
     · simp [hak]; exact ih a ((List.mem_cons.mp h).resolve_left hak)
 
+/-! ### an untranslatable function -/
+
+theorem emitBody_bad (bad : List Name) (c : Content) : ∀ (o : List Name),
+    (∃ n ∈ o, bad.contains n = true ∧ ((c.derived.lookup n).isSome = true ∨ (c.rxns.lookup n).isSome = true)) →
+    ∃ m, emitBody bad c o = .error (.valueError m) := by
+  intro o; induction o with
+  | nil => intro ⟨n, hn, _⟩; cases hn
+  | cons k ks ih =>
+    intro ⟨n, hn, hb, hdef⟩
+    have hrest : n ∈ ks → ∃ m, emitBody bad c ks = .error (.valueError m) :=
+      fun h => ih ⟨n, h, hb, hdef⟩
+    simp only [emitBody]
+    cases hd : c.derived.lookup k with
+    | some f =>
+      cases hbk : bad.contains k with
+      | true => exact ⟨k, by simp⟩
+      | false =>
+        have hnk : n ≠ k := fun h => by rw [h, hbk] at hb; cases hb
+        obtain ⟨m, hm⟩ := hrest ((List.mem_cons.mp hn).resolve_left hnk)
+        exact ⟨m, by simp [hm, bind, Except.bind]⟩
+    | none =>
+      cases hr : c.rxns.lookup k with
+      | some r =>
+        cases hbk : bad.contains k with
+        | true => exact ⟨k, by simp⟩
+        | false =>
+          have hnk : n ≠ k := fun h => by rw [h, hbk] at hb; cases hb
+          obtain ⟨m, hm⟩ := hrest ((List.mem_cons.mp hn).resolve_left hnk)
+          exact ⟨m, by simp [hm, bind, Except.bind]⟩
+      | none =>
+        have hnk : n ≠ k := fun h => by
+          subst h; rcases hdef with h1 | h1 <;> simp [hd, hr] at h1
+        simpa using hrest ((List.mem_cons.mp hn).resolve_left hnk)
+
+theorem genModel_raises (bad : List Name) (c : Content) (L : Lang) {cache : Cache}
+    (hcc : createCache c = .ok cache) {n : Name} (hn : n ∈ cache.order) (hb : bad.contains n = true)
+    (hdef : (c.derived.lookup n).isSome = true ∨ (c.rxns.lookup n).isSome = true) :
+    ∃ m, genModel bad c L [] = .error (.valueError m) := by
+  obtain ⟨m, hm⟩ := emitBody_bad bad c cache.order ⟨n, hn, hb, hdef⟩
+  exact ⟨m, by simp [genModel, hcc, popAll, hm, bind, Except.bind, pure, Except.pure]⟩
+
 /-! ### main theorem -/
 
 theorem equiv_main (c : Content) (L : Lang) (t : Rat) (xs : List Rat)
